@@ -452,7 +452,7 @@ affair: no consumer may decide anything (is this a literal? does it need expansi
 the pieces one at a time. -/
 
 private theorem foldl_escape (s acc : Str) :
-    s.foldl (fun a c => if isSpecial c then a ++ ['\\', c] else a ++ [c]) acc = acc ++ escapeLiteral s := by
+    s.foldl (fun a c => if needsQuoting c then a ++ ['\\', c] else a ++ [c]) acc = acc ++ escapeLiteral s := by
   induction s generalizing acc with
   | nil => simp [escapeLiteral]
   | cons c t ih =>
@@ -501,14 +501,42 @@ theorem pieces_match_correct_partial (ext nc : Bool) (ps : List PatPiece) (s : S
 /-- A construct cut by a quoting boundary has no piece that is a glob on its own, yet the pattern is
 one: `[a"b"]` is the pieces `[a`, quoted `b`, `]`; no piece requires expansion, the joined text is
 the bracket expression `[ab]`. A per-piece test ("no piece is a glob, so the word is a literal")
-is therefore unsound — `Pattern::expand` applies one and leaves `[a"b"]` unexpanded (bash: `a b`). -/
-theorem piecewise_glob_test_cex :
+is therefore unsound for any consumer; `Pattern::expand` asks the joined text and expands. -/
+theorem piecewise_glob_test_is_unsound :
     let ps := [PatPiece.pat "[a".toList, .lit "b".toList, .pat "]".toList]
     ps.any (PatPiece.requiresExpansion false) = false ∧
     hasGlob false (joinPieces ps) = true ∧
     piecesMatch false false ps ['b'] = true ∧ piecesMatch false false ps "[ab]".toList = false ∧
-    expandPieces false false false ps ["a".toList, "b".toList, "c".toList] = none ∧
-    specExpandPieces false false false ps ["a".toList, "b".toList, "c".toList] = some ["a".toList, "b".toList] := by
+    expandPieces false false false ps ["a".toList, "b".toList, "c".toList] = some ["a".toList, "b".toList] := by
+  decide +kernel
+
+/-- Pathname expansion of a one-component piece list is bash's, whenever the joined text requires
+expansion: same guards as for matching (the two readings of the text agree, no `!(…)`, no named
+class under nocase), any directory contents, dotglob on or off. -/
+theorem expandPieces_eq_spec_partial (ext nc dotglob : Bool) (ps : List PatPiece) (names : List Str) (q : Pat)
+    (hs : specParse ext (specPiecesText ps) = some q)
+    (hp : eraseEsc q = eraseEsc (parsePat ext (joinPieces ps)))
+    (hb : (parsePat ext (joinPieces ps)).hasBang = false) (hc : ClsOk nc (parsePat ext (joinPieces ps)))
+    (hg : hasGlob ext (joinPieces ps) = true) :
+    expandPieces ext nc dotglob ps names = specExpandPieces ext nc dotglob ps names := by
+  have hm : ∀ n, piecesMatch ext nc ps n = matchB nc q n := by
+    intro n
+    rw [Bool.eq_iff_iff, matchB_iff, ← Matches_erase nc q n, hp, Matches_erase]
+    exact pieces_match_correct_partial ext nc ps n hb hc
+  simp only [expandPieces, specExpandPieces, piecesText_eq_join, hg, hs, Bool.not_true,
+    Bool.false_eq_true, ite_false, Option.map_some]
+  congr 2
+  apply List.filter_congr
+  intro n _
+  rw [hm n]
+  cases ps with
+  | nil => simp
+  | cons p ps => simp [Bool.or_assoc]
+
+example :
+    let ps := [PatPiece.pat "[a".toList, .lit "b".toList, .pat "]".toList]
+    (specParse false (specPiecesText ps)).map eraseEsc = some (eraseEsc (parsePat false (joinPieces ps))) ∧
+    hasGlob false (joinPieces ps) = true ∧ (parsePat false (joinPieces ps)).hasBang = false := by
   decide +kernel
 
 /-- quoted text shaped like a pattern stays text: `x='@(a|b)'; [[ $x == "$x" ]]`, `"*"`, `"[ab]"` -/
@@ -521,17 +549,33 @@ theorem quoted_piece_shaped_like_a_pattern_is_literal :
     piecesMatch true false [.lit "+".toList, .pat "(a)".toList] "+(a)".toList = true := by
   decide +kernel
 
-/-- full statement for quoted pieces: the code's reading of a piece list is bash's -/
-def quoted_pieces_are_literal_full : Prop :=
-  ∀ (ext nc : Bool) (ps : List PatPiece) (s : Str) (r : Bool),
-    specPiecesMatch ext nc ps s = some r → piecesMatch ext nc ps s = r
+/-- The code's reading of a piece list is bash's: whenever the two readings of the text agree on
+the parse (up to how a bracket member was written: `eraseEsc`) (bash quotes every character of a quoted piece, brush the ones its grammar gives a
+meaning to), and under the usual guards, matching the pieces is POSIX matching of that parse. -/
+theorem quoted_pieces_are_literal_partial (ext nc : Bool) (ps : List PatPiece) (q : Pat) (s : Str)
+    (hs : specParse ext (specPiecesText ps) = some q)
+    (hp : eraseEsc q = eraseEsc (parsePat ext (joinPieces ps)))
+    (hb : (parsePat ext (joinPieces ps)).hasBang = false) (hc : ClsOk nc (parsePat ext (joinPieces ps))) :
+    specPiecesMatch ext nc ps s = some (piecesMatch ext nc ps s) := by
+  have hm : piecesMatch ext nc ps s = matchB nc q s := by
+    rw [Bool.eq_iff_iff, matchB_iff, ← Matches_erase nc q s, hp, Matches_erase]
+    exact pieces_match_correct_partial ext nc ps s hb hc
+  simp [specPiecesMatch, specMatches, hs, hm]
 
-/-- a quoted `!`, `^`, `-`, `@` or `:` is joined in without a backslash (`regex_char_is_special` does
-not list them) and keeps its pattern meaning: `["!"a]` negates -/
-theorem quoted_operator_cex : ¬ quoted_pieces_are_literal_full := by
-  intro h
-  have := h false false [.pat "[".toList, .lit "!".toList, .pat "a]".toList] ['b'] false (by decide +kernel)
-  revert this
+/-- the former counter-examples: a quoted `!`, `-`, `@`, `:` is a character, not an operator —
+`["!"a]` does not negate, `[a"-"c]` is no range, `"@"` in front of a group is no extglob, `[[":"alpha:]]`
+no class — and the hypotheses of the theorem above hold for them -/
+theorem quoted_operator_is_literal :
+    let neg := [PatPiece.pat "[".toList, .lit "!".toList, .pat "a]".toList]
+    let rng := [PatPiece.pat "[a".toList, .lit "-".toList, .pat "c]".toList]
+    let grp := [PatPiece.lit "@".toList, .pat "(a|b)".toList]
+    let cls := [PatPiece.pat "[[".toList, .lit ":".toList, .pat "alpha:]]".toList]
+    piecesMatch false false neg ['b'] = false ∧ piecesMatch false false neg ['!'] = true ∧
+    (specParse false (specPiecesText neg)).map eraseEsc = some (eraseEsc (parsePat false (joinPieces neg))) ∧
+    piecesMatch false false rng ['b'] = false ∧ piecesMatch false false rng ['-'] = true ∧
+    (specParse false (specPiecesText rng)).map eraseEsc = some (eraseEsc (parsePat false (joinPieces rng))) ∧
+    piecesMatch true false grp ['a'] = false ∧ piecesMatch true false grp "@(a|b)".toList = true ∧
+    piecesMatch false false cls ['a'] = false ∧ piecesMatch false false cls "a]".toList = true := by
   decide +kernel
 
 /-! ## pathname expansion of one component in one directory -/
